@@ -21,6 +21,9 @@ type SolverCfg struct {
 	WorkDir      string
 	Workers      int
 	Known        map[string][]KnownFinding
+	Keep         bool
+	NoBatch      bool
+	NoSolve      bool
 }
 
 type Job struct {
@@ -81,11 +84,60 @@ func runSolver(ctx context.Context, name, bin string, timeout time.Duration, fil
 	return solveResult{st, name, secs, text}
 }
 
-func solveFile(cfg *SolverCfg, z3file, cvcfile string) solveResult {
-	// stage 1: z3-new alone with the short timeout
-	r := runSolver(context.Background(), solverBins[0].name, solverBins[0].bin, cfg.FirstTimeout, z3file)
+var winnerMu sync.Mutex
+var winner = map[string]int{} // obligation base key -> index into solverBins of the solver that decided it last
+
+func fileFor(i int, z3file, cvcfile string) string {
+	if strings.HasPrefix(solverBins[i].name, "cvc5") {
+		return cvcfile
+	}
+	return z3file
+}
+
+func solveFile(cfg *SolverCfg, key, z3file, cvcfile string) solveResult {
+	// stage 0: the solver that decided the previous instance of the same obligation, alone
+	winnerMu.Lock()
+	wi, have := winner[key]
+	winnerMu.Unlock()
+	if have {
+		r0 := runSolver(context.Background(), solverBins[wi].name, solverBins[wi].bin, cfg.FirstTimeout, fileFor(wi, z3file, cvcfile))
+		if r0.status == "unsat" || r0.status == "sat" {
+			return r0
+		}
+	}
+	r := solveFileRace(cfg, z3file, cvcfile)
 	if r.status == "unsat" || r.status == "sat" {
-		return r
+		for i, s := range solverBins {
+			if s.name == r.solver {
+				winnerMu.Lock()
+				winner[key] = i
+				winnerMu.Unlock()
+			}
+		}
+	}
+	return r
+}
+
+func solveFileRace(cfg *SolverCfg, z3file, cvcfile string) solveResult {
+	// stage 1: z3-new and cvc5 raced with the short timeout (each decides goals the other does not)
+	var r solveResult
+	{
+		ctx1, cancel1 := context.WithCancel(context.Background())
+		ch1 := make(chan solveResult, 3)
+		go func() { ch1 <- runSolver(ctx1, solverBins[0].name, solverBins[0].bin, cfg.FirstTimeout, z3file) }()
+		go func() { ch1 <- runSolver(ctx1, solverBins[1].name, solverBins[1].bin, cfg.FirstTimeout, z3file) }()
+		go func() { ch1 <- runSolver(ctx1, solverBins[2].name, solverBins[2].bin, cfg.FirstTimeout, cvcfile) }()
+		for i := 0; i < 3; i++ {
+			x := <-ch1
+			if x.status == "unsat" || x.status == "sat" {
+				cancel1()
+				return x
+			}
+			if i == 0 || x.status != "error" {
+				r = x
+			}
+		}
+		cancel1()
 	}
 	// stage 2: race
 	ctx, cancel := context.WithCancel(context.Background())
@@ -115,15 +167,30 @@ func solveFile(cfg *SolverCfg, z3file, cvcfile string) solveResult {
 	return last
 }
 
-func discharge(cfg *SolverCfg, units []*Unit) []*Oblig {
-	os.MkdirAll(cfg.WorkDir, 0o755)
-	var jobs []Job
-	var all []*Oblig
-	add := func(u *Unit, inst *Oblig) {
+// Task: one unit instance to generate and discharge
+type Task struct {
+	Ct     *Contract
+	Subst  map[string]int64
+	Suffix string
+	Keep   []string // if non-nil: only explicit obligations with these clause labels (split instances)
+	Drop   []string // explicit obligations with these labels are left to the split instances
+}
+
+type textJob struct {
+	inst   *Oblig
+	zf, cf string
+	key    string
+	full   string // file with the unfiltered query ("" when nothing was filtered)
+}
+
+// expandJobs turns the obligations of a unit into solver jobs (case splits by hypothesis,
+// known-finding carve-outs)
+func expandJobs(cfg *SolverCfg, u *Unit) []*Oblig {
+	var out []*Oblig
+	add := func(inst *Oblig) {
 		ks := cfg.Known[baseKey(inst.Name)]
 		if len(ks) == 0 {
-			all = append(all, inst)
-			jobs = append(jobs, Job{Inst: inst, Unit: u})
+			out = append(out, inst)
 			return
 		}
 		c := u.Ctx
@@ -141,91 +208,230 @@ func discharge(cfg *SolverCfg, units []*Unit) []*Oblig {
 				in.Extra = append(append([]Term{}, inst.Extra...), t)
 				outside = append(outside, c.not(t))
 			}
-			all = append(all, &in)
-			jobs = append(jobs, Job{Inst: &in, Unit: u})
+			out = append(out, &in)
 		}
 		if !whole {
-			out := *inst
-			out.Extra = append(append([]Term{}, inst.Extra...), outside...)
-			all = append(all, &out)
-			jobs = append(jobs, Job{Inst: &out, Unit: u})
+			o2 := *inst
+			o2.Extra = append(append([]Term{}, inst.Extra...), outside...)
+			out = append(out, &o2)
 		}
 	}
-	for _, u := range units {
-		for _, o := range u.Obligs {
-			if len(u.Splits) > 0 && o.Kind != "vacuity" {
-				for i, sp := range u.Splits {
-					inst := *o
-					inst.Name = o.Name + u.SplitNm[i]
-					inst.Extra = sp
-					add(u, &inst)
+	for _, o := range u.Obligs {
+		if len(u.Splits) > 0 && o.Kind != "vacuity" {
+			for i, sp := range u.Splits {
+				inst := *o
+				inst.Name = o.Name + u.SplitNm[i]
+				inst.Extra = sp
+				add(&inst)
+			}
+		} else {
+			add(o)
+		}
+	}
+	return out
+}
+
+// runPipeline generates the VCs of all tasks (in parallel) and discharges them (in parallel),
+// streaming: a unit's context is dropped as soon as its queries are written.
+func (p *Program) runPipeline(cfg *SolverCfg, tasks []Task) ([]*Oblig, []*Unit) {
+	os.MkdirAll(cfg.WorkDir, 0o755)
+	var mu sync.Mutex
+	var all []*Oblig
+	var units []*Unit
+	taskCh := make(chan int, len(tasks))
+	for i := range tasks {
+		taskCh <- i
+	}
+	close(taskCh)
+	jobCh := make(chan textJob, 256)
+	var genWG, solveWG sync.WaitGroup
+	var seq int64
+	gens := cfg.Workers / 2
+	if gens < 1 {
+		gens = 1
+	}
+	for g := 0; g < gens; g++ {
+		genWG.Add(1)
+		go func() {
+			defer genWG.Done()
+			for ti := range taskCh {
+				t := tasks[ti]
+				u := p.verifyUnit(t.Ct, t.Subst, t.Suffix)
+				u.filter(t.Keep, t.Drop)
+				insts := expandJobs(cfg, u)
+				var tj []textJob
+				for _, in := range insts {
+					mu.Lock()
+					seq++
+					n := seq
+					mu.Unlock()
+					text, full := u.Ctx.emitBoth(in)
+					in.SMTBytes = len(text)
+					zf := filepath.Join(cfg.WorkDir, fmt.Sprintf("o%d.smt2", n))
+					cf := filepath.Join(cfg.WorkDir, fmt.Sprintf("o%d.cvc5.smt2", n))
+					os.WriteFile(zf, []byte(text), 0o644)
+					os.WriteFile(cf, []byte(strings.Replace(text, "(set-option :produce-models true)\n", "(set-option :produce-models true)\n(set-logic ALL)\n", 1)), 0o644)
+					in.SMTFile = zf
+					ff := ""
+					if full != "" && in.Expect == "" {
+						ff = filepath.Join(cfg.WorkDir, fmt.Sprintf("o%d.full.smt2", n))
+						os.WriteFile(ff, []byte(full), 0o644)
+					}
+					tj = append(tj, textJob{in, zf, cf, baseKey(in.Name), ff})
 				}
-			} else {
-				add(u, o)
+				u.NObl = len(insts)
+				u.Ctx = nil // release the definitions
+				u.Obligs = nil
+				mu.Lock()
+				all = append(all, insts...)
+				units = append(units, u)
+				mu.Unlock()
+				for _, j := range tj {
+					jobCh <- j
+				}
+			}
+		}()
+	}
+	solveOne := func(j textJob, c *SolverCfg, race bool) {
+		var r solveResult
+		if c.NoSolve {
+			j.inst.Status = "unsat"
+			return
+		}
+		switch {
+		case j.inst.Expect == "sat":
+			r = runSolver(context.Background(), solverBins[0].name, solverBins[0].bin, c.FirstTimeout, j.zf)
+		case race:
+			r = solveFileRace(c, j.zf, j.cf)
+		default:
+			r = solveFile(c, j.key, j.zf, j.cf)
+		}
+		if c.Confirm && r.status == "unsat" && j.inst.Expect == "" {
+			for _, s := range solverBins {
+				if s.name == r.solver {
+					continue
+				}
+				f := j.zf
+				if strings.HasPrefix(s.name, "cvc5") {
+					f = j.cf
+				}
+				r2 := runSolver(context.Background(), s.name, s.bin, c.FullTimeout, f)
+				if r2.status == "sat" {
+					r.status = "disagree"
+					r.out += "\n--- " + s.name + " says sat:\n" + r2.out
+					break
+				}
+				if r2.status == "unsat" {
+					r.solver += "+" + s.name
+					break
+				}
 			}
 		}
+		if r.status != "unsat" && j.full != "" && j.inst.Expect == "" {
+			// the filtered query dropped definitions: decide on the complete one
+			fc := j.full + ".cvc5.smt2"
+			data, _ := os.ReadFile(j.full)
+			os.WriteFile(fc, []byte(strings.Replace(string(data), "(set-option :produce-models true)\n", "(set-option :produce-models true)\n(set-logic ALL)\n", 1)), 0o644)
+			r2 := solveFileRace(c, j.full, fc)
+			os.Remove(fc)
+			r2.secs += r.secs
+			r = r2
+			j.inst.SMTFile = j.full
+		}
+		j.inst.Status, j.inst.Solver, j.inst.Output = r.status, r.solver, r.out
+		j.inst.Secs += r.secs
 	}
-	var wg sync.WaitGroup
-	ch := make(chan int, len(jobs))
-	for i := range jobs {
-		ch <- i
-	}
-	close(ch)
+	var undecided []textJob
 	for w := 0; w < cfg.Workers; w++ {
-		wg.Add(1)
-		go func(w int) {
-			defer wg.Done()
-			for i := range ch {
-				j := jobs[i]
-				text := j.Unit.Ctx.emit(j.Inst, "")
-				j.Inst.SMTBytes = len(text)
-				zf := filepath.Join(cfg.WorkDir, fmt.Sprintf("o%d.smt2", i))
-				cf := filepath.Join(cfg.WorkDir, fmt.Sprintf("o%d.cvc5.smt2", i))
-				os.WriteFile(zf, []byte(text), 0o644)
-				os.WriteFile(cf, []byte(strings.Replace(text, "(set-option :produce-models true)\n", "(set-option :produce-models true)\n(set-logic ALL)\n", 1)), 0o644)
-				r := solveFile(cfg, zf, cf)
-				if cfg.Confirm && r.status == "unsat" && j.Inst.Expect == "" {
-					// second opinion from a different solver
-					for _, s := range solverBins {
-						if s.name == r.solver {
-							continue
-						}
-						f := zf
-						if strings.HasPrefix(s.name, "cvc5") {
-							f = cf
-						}
-						r2 := runSolver(context.Background(), s.name, s.bin, cfg.FullTimeout, f)
-						if r2.status == "sat" {
-							r.status = "disagree"
-							r.out += "\n--- " + s.name + " says sat:\n" + r2.out
-							break
-						}
-						if r2.status == "unsat" {
-							r.solver += "+" + s.name
-							break
-						}
+		solveWG.Add(1)
+		go func() {
+			defer solveWG.Done()
+			for j := range jobCh {
+				solveOne(j, cfg, false)
+				if j.inst.Expect == "" && (j.inst.Status == "timeout" || j.inst.Status == "unknown" || j.inst.Status == "error") {
+					mu.Lock()
+					undecided = append(undecided, j)
+					mu.Unlock()
+					continue
+				}
+				os.Remove(j.cf)
+				if j.inst.ok() && !cfg.Keep {
+					os.Remove(j.zf)
+					if j.full != "" {
+						os.Remove(j.full)
 					}
 				}
-				j.Inst.Status = r.status
-				j.Inst.Solver = r.solver
-				j.Inst.Secs = r.secs
-				j.Inst.Output = r.out
-				if r.status == "unsat" || (r.status == "sat" && j.Inst.Expect == "sat") {
-					os.Remove(zf)
-					os.Remove(cf)
-				} else {
-					os.Remove(cf)
-				}
 			}
-		}(w)
+		}()
 	}
-	wg.Wait()
-	return all
+	genWG.Wait()
+	close(jobCh)
+	solveWG.Wait()
+	// retry phase: undecided obligations once more with little else running (a loaded machine
+	// must not turn into an alarm)
+	if len(undecided) > 0 {
+		ch2 := make(chan textJob, len(undecided))
+		for _, j := range undecided {
+			ch2 <- j
+		}
+		close(ch2)
+		var wg2 sync.WaitGroup
+		big := *cfg
+		big.FullTimeout = 2 * cfg.FullTimeout
+		for w := 0; w < 4; w++ {
+			wg2.Add(1)
+			go func() {
+				defer wg2.Done()
+				for j := range ch2 {
+					solveOne(j, &big, true)
+					j.inst.Retried = true
+					os.Remove(j.cf)
+					if j.inst.ok() && !cfg.Keep {
+						os.Remove(j.zf)
+					}
+				}
+			}()
+		}
+		wg2.Wait()
+	}
+	return all, units
+}
+
+// filter keeps / drops explicit obligations by clause label (per-clause case splits)
+func (u *Unit) filter(keep, drop []string) {
+	if keep == nil && drop == nil {
+		return
+	}
+	has := func(l []string, x string) bool {
+		for _, y := range l {
+			if y == x {
+				return true
+			}
+		}
+		return false
+	}
+	var out []*Oblig
+	for _, o := range u.Obligs {
+		lab := o.Label
+		if keep != nil {
+			if has(keep, lab) && (o.Kind == "ensures" || o.Kind == "assert") {
+				out = append(out, o)
+			}
+			continue
+		}
+		if has(drop, lab) && (o.Kind == "ensures" || o.Kind == "assert") {
+			continue
+		}
+		out = append(out, o)
+	}
+	u.Obligs = out
 }
 
 func (o *Oblig) ok() bool {
 	if o.Expect == "sat" {
-		return o.Status == "sat"
+		// vacuity guards: the hypotheses must not be refutable (a model is the best outcome;
+		// unknown/timeout means "not refuted", which is what the guard is for)
+		return o.Status == "sat" || o.Status == "unknown" || o.Status == "timeout"
 	}
 	return o.Status == "unsat"
 }
